@@ -541,8 +541,9 @@ func c05Variants(thorough bool) []variant {
 }
 
 type c05Runner struct {
-	r   *mon.Run
-	env *Env
+	r       *mon.Run
+	env     *Env
+	sampled map[string]bool
 }
 
 func protoFamily(p string) string {
@@ -590,7 +591,8 @@ func (g *c05Runner) exec(c *Case, label string) {
 	for _, v := range vs {
 		r.Violate(v.key, v.what, c)
 	}
-	if r.SampleN() < 6 && (c.Script.Code == 5 || c.Script.Code == 17) && label == "pct-middle" && c.Script.Details {
+	if fam := protoFamily(c.Proto); r.SampleN() < 6 && !g.sampled[fam] && c.Script.Code == 5 && label == "pct-middle" && c.Script.Details && c.Script.Replies <= 1 {
+		g.sampled[fam] = true
 		r.Sample(map[string]any{"proto": c.Proto, "codec": c.Codec, "method": c.Method, "code": c.Script.Code, "msg": c.Script.Msg, "replies_before_status": c.Script.Replies,
 			"observed": map[string]any{"http": o.HTTP, "grpc_status": o.CodeText, "code": o.Code, "msg": clip(o.Msg, 60), "replies": o.Replies, "ws_close_code": o.WSCode, "panics": len(o.Panics)}})
 	}
@@ -606,7 +608,7 @@ func RunC05(r *mon.Run) {
 		return
 	}
 	defer env.Close()
-	g := &c05Runner{r: r, env: env}
+	g := &c05Runner{r: r, env: env, sampled: map[string]bool{}}
 
 	msgs := allMsgs(r.Thorough())
 	rng := r.Rand("c05-messages")
